@@ -57,12 +57,31 @@ def run(ctx):
                                  seed=ctx.seed + 1, timeout=3000)
         ctx.cov['tlc_runs'].append({'label': 'E1 simulation SIM_Collection.cfg', 'behaviours': len(behs), 'depth': depth})
         replay_items(ctx, items_from_sim(behs), 'simulate SIM_Collection.cfg')
+        _undo(ctx, wd)
         _impl(ctx, wd, quick)
         _e2(ctx, wd, quick)
     ctx.cov['rule'] = ('every transition of the depth-bounded generation graph replayed (BFS-tree leaves + non-tree edges) plus '
                        'random walks; non-trivial = distinct histories of >= 3 steps ending with at least one dataset and one group')
     ctx.assume('membership compared only when no hub delay block is open; nothing is required of datasets outside the collection')
     ctx.assume('selections are row-index selections (ElementSubsetState) so that one group state has a mask on every dataset')
+
+
+def _undo(ctx, wd):
+    """"... undoing and redoing": the do/undo/redo words of Commands.tla that cross a dataset removal (every word of <= 7 commands
+    over add/remove data and selections) on a real session; the projection includes, per group and dataset, that the dataset
+    carries exactly one subset of the group - divergences on it are C06 violations (the whole of Commands.tla belongs to C13)."""
+    from harness.checks import c13
+    ucfg = 'GEN_Commands_undo2.cfg'
+    res, g = tlc.dump_graph(wd, 'MC_Commands.tla', ucfg, timeout=3000)
+    ctx.add_tlc('E1 generation ' + ucfg + ' (Commands.tla, membership under undo/redo)', res, ucfg)
+    items = c13._items([[g.state(n) for n in p] for p in g.behaviours()], 3)
+    del g
+    ctx.check_ops(ucfg, items, ['Do', 'Undo', 'Redo'])
+    res = core.sharded('harness.adapters.commands', 'replay_chunk', items)
+    ctx.add_replayed(len(items), sum(r['steps'] for r in res), sum(1 for it in items if sum(1 for s in it['steps'] if s['act']['op'] == 'Undo') >= 2))
+    for r in res:
+        for d in r['div']:
+            ctx.report(core.Divergence.from_json(d))
 
 
 def _impl(ctx, wd, quick):
@@ -180,6 +199,9 @@ def replay(div):
         print('VIOLATION property=C06 replay=(given)')
         print('  step %s %s: expected %s got %s (%s)' % r)
         return 1
+    if div.behaviour.get('spec') == 'Commands' or 'max_undo' in div.behaviour:
+        from harness.checks import c13
+        return c13.replay(div, 'C06')
     res = A.replay_one(div.behaviour)
     if res is None:
         print('replay: behaviour conforms')
